@@ -156,6 +156,10 @@ def run(ctx):
     res = run_engine_checked(ctx, binary, "TestWsReplay", {"behaviours": behaviours, "seed": ctx.seed})
     if res.get("replayed", 0) < 0.9 * len(behaviours) and not res.get("divergences") and not getattr(ctx, "g04_broken", None):
         raise vlib.Broken("engine replayed too little: %s of %s" % (res.get("replayed"), len(behaviours)))
+    rst = res.get("stats", {})
+    if not res.get("divergences") and not getattr(ctx, "g04_broken", None) and not (
+            rst.get("messages_sent_fragmented_with_empty_fin") and rst.get("messages_sent_with_padding_behind_the_value")):
+        raise vlib.Broken("the replayed behaviours sent no fragmented / padded messages: %s" % rst)
     # ---- binding 2: free-running writers, monitor = frame integrity + ordering promises
     run_engine_checked(ctx, binary, "TestWsStress", {"seed": ctx.seed, "conns": 6 if thorough else 4,
                                                       "requests": 1500 if thorough else 300, "rounds": 12 if thorough else 3})
